@@ -10,8 +10,29 @@ def _run(cfg, ops, impl, seed, tid):
     return djangodriver.run(cfg, ops, impl, seed, tid)
 
 
+def design_level(out, tier):
+    """DjangoSeq.tla: the contract stated directly (map (key, version) -> value, expiry) in lock step with DjangoCache's
+    composition of reference-dictionary operations over made keys, for every backend configuration."""
+    import os
+    from .. import VERIF
+    from ..tlc import run_tlc
+    for name in (['one'] if tier == 'quick' else ['one', 'two']):
+        res = run_tlc('MCDjango.tla', 'MCDjango_%s.cfg' % name, workers=16, timeout=3000)
+        if res.error or res.violation:
+            raise MachineryError('MCDjango_%s: %s %s\n%s' % (name, res.error, res.violation, res.out[-1500:]))
+        out.add_tlc('MCDjango_%s.cfg' % name, res, open(os.path.join(VERIF, 'spec', 'MCDjango_%s.cfg' % name)).readline().strip())
+    rej = []
+    for name, invs in (('dev_zero', ('SameResults', 'Agreement')), ('dev_ver', ('Namespaced', 'SameResults', 'Agreement'))):
+        res = run_tlc('MCDjango.tla', 'MCDjango_%s.cfg' % name, workers=4, timeout=300)
+        if res.violation not in invs:
+            raise MachineryError('MCDjango_%s was expected to violate one of %s, got %s %s' % (name, invs, res.violation, res.error))
+        rej.append('%s violates %s' % (name, res.violation))
+    out.notes['design_deviations_rejected'] = rej
+
+
 def run(prop, tier, seed):
     out = Outcome('C19', tier, seed)
+    design_level(out, tier)
     rng = random.Random(seed * 160481183 + 19)
     jobs = []
     tid = 0
@@ -56,7 +77,7 @@ def run(prop, tier, seed):
                              % (len(spec_bad), v['why'], t['ev'][v['at'] - 1]))
     out.samples.append({'cfg': traces[0]['cfg'], 'ops': [[e['op'], e['a'], e['ret']] for e in traces[0]['ev'][:12]]})
     out.notes.update({'histories': len(traces), 'locmem_cross_check_histories': sum(1 for t in traces if t['impl'] == 'locmem')})
-    out.level = 'exploration'
+    out.level = 'model_checking'
     return out.finish({'evaluations': len(traces), 'distinct_nontrivial': len({str(t['cfg']) for t in traces}),
                        'rule': 'seeded random call sequences over 3 keys x versions {default,1,2} x timeouts {DEFAULT, None, 0, -1, 1, 2, 5} under a virtual clock, '
                                'x backend TIMEOUT {None,0,3,5,300} x KEY_PREFIX x VERSION x SHARDS {1,3,8}; return values validated by TLC against DjangoTrace.tla; '
